@@ -136,6 +136,51 @@ def _whole_reix(fn: FuncInfo, tval: ast.expr) -> Optional[str]:
     return None
 
 
+def _vertex_renumbering(model: Model, fn: FuncInfo,
+                        tval: ast.expr) -> Optional[str]:
+    """t = g(self.t) where g applies an index map to the whole table
+    (returns ``M[t]``): vertices are renumbered, every cell keeps its
+    position - cell indices (subdomains) stay valid, facet indices need
+    not."""
+    if not isinstance(tval, ast.Name):
+        return None
+    defs = _assigned(fn, tval.id)
+    if len(defs) != 1:
+        return None
+    node, pos = defs[0]
+    call = node.value
+    if not (isinstance(call, ast.Call) and isinstance(call.func,
+                                                      ast.Attribute)
+            and src(call.func.value) == "self" and fn.cls is not None):
+        return None
+    callee = fn.cls.find_method(call.func.attr)
+    if callee is None:
+        return None
+    argpos = [i for i, a in enumerate(call.args) if src(a) == "self.t"]
+    if len(argpos) != 1:
+        return None
+    params = [p for p in callee.params() if p not in ("self", "cls")]
+    if argpos[0] >= len(params):
+        return None
+    pname = params[argpos[0]]
+    rets = [n for n in walk_no_nested(callee.node)
+            if isinstance(n, ast.Return) and n.value is not None]
+    if len(rets) != 1:
+        return None
+    rv = rets[0].value
+    elt = rv.elts[pos] if isinstance(rv, ast.Tuple) and pos is not None \
+        else rv
+    # unwrap wrappers that keep shape: f(X[t]) with f in a small table
+    while isinstance(elt, ast.Call) and elt.args and src(elt.func) in (
+            "np.ascontiguousarray", "Mesh._squeeze_if", "self._squeeze_if"):
+        elt = elt.args[0]
+    if isinstance(elt, ast.Subscript) and isinstance(elt.slice, ast.Name) \
+            and elt.slice.id == pname and isinstance(elt.value, ast.Name):
+        return (f"t = {callee.short()}(self.t) = {elt.value.id}[self.t]: "
+                f"vertices renumbered, every cell keeps its index")
+    return None
+
+
 def _one_dimensional(model: Model, fn: FuncInfo, kwargs) -> Optional[str]:
     c = fn.cls
     if c is None:
@@ -189,6 +234,10 @@ def derived_meshes(model: Model, prefix: str = "skfem/mesh/") -> List[DerivedMes
                 elif f == "_boundaries" and _one_dimensional(model, fn,
                                                              kwargs):
                     dm.verdict[f] = _one_dimensional(model, fn, kwargs)
+                elif f == "_subdomains" and _vertex_renumbering(
+                        model, fn, kwargs["t"]):
+                    dm.verdict[f] = _vertex_renumbering(model, fn,
+                                                        kwargs["t"])
                 else:
                     dm.verdict[f] = "INHERITED"
             out.append(dm)
